@@ -1274,6 +1274,12 @@ func (ex *Exec) builtinAppend(e *ast.CallExpr) Val {
 	typ := ex.typeOf(e)
 	elem := elemTypeOf(typ)
 	s := ex.coerce(ex.eval(e.Args[0]), typ)
+	if strings.Contains(s.T.str, "(ite ") || len(s.T.str) > 100 {
+		// the facts about the result use the operand inside quantifier patterns: keep it a plain constant
+		c := ex.fresh("n.appendee", SSlice)
+		ex.rawFact(Eq(c, s.T))
+		s.T = c
+	}
 	// ownership obligation for functions that claim not to write into shared arrays
 	if fc := ex.topContract(); fc != nil && fc.NoSharedAppend {
 		ex.checkAppendOwner(e.Args[0], s)
